@@ -349,7 +349,7 @@ def main():
         for sig in unlisted[:max_report]:
             r, v = min(by_sig[sig], key=lambda rv: len(json.dumps(rv[0]["scenario"])))
             preceding = []
-            alone = _exec_scenario_job((prop, r["scenario"], cap_s))
+            alone = pool.submit(_exec_scenario_job, (prop, r["scenario"], cap_s)).result()
             if not any(x["signature"] == sig for x in alone["violations"]):
                 # The violation needs state left behind by runs executed earlier in the same
                 # process (its chunk).  Reproduce it as a sequence and drop what is not needed.
@@ -359,7 +359,7 @@ def main():
                 keep = list(preceding)
                 for i in range(len(preceding)):
                     cand = [p_ for p_ in keep if p_ is not preceding[i]]
-                    rr = _exec_sequence_job((prop, cand + [r["scenario"]], cap_s))
+                    rr = pool.submit(_exec_sequence_job, (prop, cand + [r["scenario"]], cap_s)).result()
                     if any(x["signature"] == sig for x in rr["violations"]):
                         keep = cand
                 preceding = keep
@@ -367,7 +367,7 @@ def main():
                 vmin = [v]
             else:
                 scen, tried = minimise(pool, prop, r["scenario"], sig, cap_s, cfg.get("shrink_budget", 160))
-                res_min = _exec_scenario_job((prop, scen, cap_s))
+                res_min = pool.submit(_exec_scenario_job, (prop, scen, cap_s)).result()
                 vmin = [x for x in res_min["violations"] if x["signature"] == sig]
                 if not vmin:  # should not happen; fall back to the original
                     scen, vmin = r["scenario"], [v]
